@@ -303,17 +303,30 @@ class World(object):
                                out_protocol=protocol(cfg['fam'], **kw))
         self.wsgi = WsgiApplication(self.app)
 
-    def _subs(self, t):
+    def _subs(self, t, late=False):
         if t['k'] in ('arr', 'attr'):
-            return self._subs(t['of'])
+            return self._subs(t['of'], late)
         if t['k'] == 'obj':
             for s in t.get('subs') or []:
+                if s.get('late') and not late:
+                    continue          # this subclass is declared later, after the first request was served
                 self.gen.cls(S.texpr(s))
             for f in S.flat_fields(t):
                 self._subs(f['t'])
 
     def exchange(self, c, form, mkey='bytes'):
         cfg = self.cfg
+        if 'prime' in c and not getattr(self, 'primed', False):
+            # the first request of this server, with the class tree as it is NOW; then the late subclasses are declared
+            self.primed = True
+            c0 = dict(c, vals=c['prime'], rvals=c['prime'] if len(c['rets']) == len(c['prime']) and c['rets'] == [f['t'] for f in c['args']] else c['rvals'])
+            c0.pop('prime')
+            try:
+                self.exchange(c0, form, mkey)
+            except Exception:
+                pass
+            for t in list(c['rets']) + [f['t'] for f in c['args']]:
+                self._subs(t, late=True)
         memo = {} if c.get('share') else None
         vals = [to_instance(self.gen, t, v, memo) for t, v in zip(c['rets'], c['rvals'])]
         self.count = getattr(self, 'count', 0) + 1
